@@ -19,11 +19,11 @@ ASSUMPTIONS = ["the key function plasTeX has configured (plasTeX.Base.LaTeX.Inde
                'recorded in the evidence', 'entries whose collation keys tie but whose raw keys differ are not generated together (the statement does '
                'not order them)', 'how full each column is, and padding columns, are not judged']
 DECIDING_REACH = ['index.invoke', 'IndexUtils.digest', 'IndexUtils.groups', 'IndexUtils.splitColumns', 'IndexEntry.__lt__']
-DECIDING_COUNTERS = {'entries_compared': 300}
+DECIDING_COUNTERS = {'entries_compared': 300, 'rendered_entries_compared': 100}
 
 
 def budget(tier):
-    return {'n': 1200 if tier == 'quick' else 25000, 'case_timeout': 60}
+    return {'n': 1200 if tier == 'quick' else 25000, 'n_render': 100 if tier == 'quick' else 2500, 'case_timeout': 60}
 
 
 def setup(st):
@@ -141,7 +141,8 @@ def cases(seed, tier, shard, nshards):
             body += '\n'
         cols = r.choice([1, 2, 2, 3, 4])
         src = '\\documentclass{article}\\usepackage{makeidx}\\makeindex\n\\begin{document}\n%s\\printindex\n\\end{document}\n' % body
-        yield {'src': src, 'entries': [{'path': entry_path(e), 'fmt': e['fmt']} for e in entries], 'cols': cols}
+        yield {'src': src, 'entries': [{'path': entry_path(e), 'fmt': e['fmt']} for e in entries], 'cols': cols,
+               'render': (r.choice(['HTML5', 'HTML5', 'XHTML']) if i < budget(tier)['n_render'] * 1 else None)}
 
 
 # ---------------------------------------------------------------------------
@@ -257,9 +258,104 @@ def run(case, st):
         st.violation('column-partition', case, 'concatenating the columns of all groups gives %r, the index order is %r (index-columns=%d)' % (
             [str(x.key.textContent) for x in flat], [str(x.key.textContent) for x in top], case['cols']))
         return {'nontrivial': True}
+    if case.get('render'):
+        d = rendered_index(case, exp, st)
+        if d:
+            st.violation('rendered/' + d[0], case, '%s index page: %s\n%s' % (case['render'], d[1], src[:1200]))
+            return {'nontrivial': True}
     paths = [tuple(map(tuple, e['path'])) for e in case['entries']]
     nt = len(paths) >= 3 and (len(set(paths)) < len(paths) or any(len(p) > 1 for p in paths))
     return {'nontrivial': nt, 'sample': {'entries': [print_entry_path(e) for e in case['entries'][:6]], 'cols': case['cols']}}
+
+
+from html.parser import HTMLParser
+
+
+class IndexPage(HTMLParser):
+    """the list structure of a rendered index: items = [{'key': text before the first comma, 'links': number of page links, 'kids': [...]}]"""
+
+    def __init__(self, text):
+        HTMLParser.__init__(self, convert_charrefs=True)
+        self.inidx = 0
+        self.stack = []          # open <li> items
+        self.top = []
+        self.in_a = 0
+        self.divs = []
+        self.feed(text)
+        self.close()
+
+    def handle_starttag(self, tag, attrs):
+        d = dict(attrs)
+        cls = d.get('class') or ''
+        if tag in ('section', 'div'):
+            self.divs.append('theindex' in cls.split())
+            if self.divs[-1]:
+                self.inidx += 1
+        if not self.inidx:
+            return
+        if tag == 'li':
+            it = {'text': '', 'links': 0, 'kids': []}
+            (self.stack[-1]['kids'] if self.stack else self.top).append(it)
+            self.stack.append(it)
+        elif tag == 'a' and self.stack:          # one <a> per page reference (a |see reference has no target)
+            self.stack[-1]['links'] += 1
+            self.in_a += 1
+
+    def handle_endtag(self, tag):
+        if tag in ('section', 'div') and self.divs:
+            if self.divs.pop():
+                self.inidx -= 1
+        if tag == 'li' and self.stack:
+            self.stack.pop()
+        elif tag == 'a' and self.in_a:
+            self.in_a -= 1
+
+    def handle_data(self, data):
+        if self.inidx and self.stack and not self.in_a:
+            self.stack[-1]['text'] += data
+
+
+def rendered_index(case, exp, st):
+    """render the document and read the index as a reader of the page would: every entry once, under its path, with one link per occurrence"""
+    import os, re
+    from ..obs import render as R
+    try:
+        out = R.render(case['src'], case['render'], {('document', 'index-columns'): case['cols'], ('files', 'split-level'): -10})
+    except common.CaseTimeout:
+        raise
+    except Exception as e:
+        return ('render-raises-' + type(e).__name__, traceback.format_exc()[-500:])
+    finally:
+        common.plastex_reset()
+    try:
+        items = []
+        for f in sorted(os.listdir(out.outdir)):
+            if f.endswith('.html'):
+                items.extend(IndexPage(open(os.path.join(out.outdir, f), encoding='utf-8').read()).top)
+    finally:
+        out.cleanup()
+
+    def norm(x):
+        return re.sub(r'\s+', '', x)
+
+    def key_of(it):
+        t = it['text']
+        return norm(t.split(',')[0]) if ',' in t else norm(t)
+
+    def cmp(e, o, path):
+        if len(e) != len(o):
+            return ('tree-shape', 'under %r: the page lists %r, the entries name %r' % (path or '(top)', [key_of(x) for x in o], [x['disp'] for x in e]))
+        for a, b in zip(e, o):
+            st.counters['rendered_entries_compared'] += 1
+            if not key_of(b).startswith(norm(a['disp'])[:40]) and norm(a['disp']) not in norm(b['text']):
+                return ('order-or-keys', 'under %r: the page lists %r, expected %r' % (path or '(top)', [key_of(x) for x in o], [x['disp'] for x in e]))
+            if b['links'] != len(a['occ']):
+                return ('page-references', 'entry %r: %d page links on the page, %d occurrences in the document' % (path + '!' + a['disp'], b['links'], len(a['occ'])))
+            d = cmp(a['kids'], b['kids'], path + '!' + a['disp'])
+            if d:
+                return d
+        return None
+    return cmp(exp, items, '')
 
 
 def print_entry_path(e):
